@@ -332,7 +332,7 @@ func (g *Gen) enterLoop(li *loopInfo, in *State) *State {
 	for _, c := range li.spec.Invariants {
 		g.oblige(c.Label+".entry", "A", "loop invariant holds on entry: "+c.Src, in.reach, env.evalBool(c.E), false)
 	}
-	frameInv := g.spec != nil && g.spec.HasAssigns
+	frameInv := g.spec != nil && g.spec.HasAssigns && !g.spec.TrustedFrame
 	if frameInv {
 		for _, k := range sortedKeys(in.heap) {
 			if goal, ok := g.frameGoal(k, in.heap[k]); ok {
@@ -651,7 +651,7 @@ func (g *Gen) closeLoop(li *loopInfo, latch *ssa.BasicBlock, st *State) {
 	for _, c := range li.spec.Invariants {
 		g.oblige(c.Label+".preserve", "A", "loop invariant preserved: "+c.Src, cond, env.evalBool(c.E), false)
 	}
-	if g.spec != nil && g.spec.HasAssigns {
+	if g.spec != nil && g.spec.HasAssigns && !g.spec.TrustedFrame {
 		for _, k := range sortedKeys(st.heap) {
 			if goal, ok := g.frameGoal(k, st.heap[k]); ok {
 				g.oblige(fmt.Sprintf("inv.%d.frame.%s.preserve", li.ordinal, k), "A", "frame invariant preserved by the loop body for "+k, cond, goal, false)
@@ -1436,9 +1436,110 @@ func (g *Gen) execReturn(x *ssa.Return, st *State) {
 			}
 		}
 	}
+	for _, cs := range g.spec.Carries {
+		g.carryCheck(cs, env, st)
+	}
 	// frame
-	if g.spec.HasAssigns {
+	if g.spec.HasAssigns && !g.spec.TrustedFrame {
 		g.frameCheck(st)
+	}
+}
+
+// carryCheck expands a `carries src -> dst` clause into one obligation per field of the struct type
+// (enumerated from go/types, so a field added later is covered automatically).
+func (g *Gen) carryCheck(cs *CarrySpec, env *SpecEnv, st *State) {
+	srcV := env.eval(EOld{cs.Src})
+	if srcV.G == nil {
+		g.errorf("carries: source %s has no Go type", cs.Src.String())
+		return
+	}
+	t := srcV.G
+	if p, ok := t.Underlying().(*types.Pointer); ok {
+		t = p.Elem()
+	}
+	stt, ok := t.Underlying().(*types.Struct)
+	if !ok {
+		g.errorf("carries: %s is not a struct", cs.Src.String())
+		return
+	}
+	used := map[string]bool{}
+	for i := 0; i < stt.NumFields(); i++ {
+		f := stt.Field(i)
+		name := f.Name()
+		if reason, ok := cs.Except[name]; ok {
+			used[name] = true
+			g.note(fmt.Sprintf("carries %s: field %s excepted (%s)", cs.Src0, name, reason))
+			continue
+		}
+		fs := g.sortOf(f.Type())
+		if fs.K == KUnit {
+			continue
+		}
+		now := env.eval(ESel{cs.Dst, name})
+		was := env.eval(EOld{ESel{cs.Src, name}})
+		was.G = f.Type()
+		g.assume("true", g.wfFact(was, g.entry)) // whatever the source held existed at entry
+		_, shared := cs.Shared[name]
+		if shared {
+			used[name] = true
+		}
+		var goal string
+		desc := ""
+		switch fs.K {
+		case KInt, KBool, KBV, KStr, KF64, KF32, KStruct, KIface, KArray:
+			if fs.K == KF64 || fs.K == KF32 {
+				goal = sEq(now.T, was.T)
+			} else {
+				goal = sEq(now.T, was.T)
+			}
+			desc = "value carried"
+		case KPtr:
+			goal = sEq(sEq(now.T, "pnull"), sEq(was.T, "pnull"))
+			desc = "nil-ness carried"
+			if !shared {
+				goal = sAnd(goal, sImp(sNot(sEq(now.T, "pnull")), sNot(sEq(now.T, was.T))))
+				desc += ", no aliasing"
+				// one level deep: scalar fields of the pointee
+				if pt, ok := f.Type().Underlying().(*types.Pointer); ok {
+					if ps, ok := pt.Elem().Underlying().(*types.Struct); ok && !isOpaqueStruct(pt.Elem()) && !isTimeType(pt.Elem()) {
+						for j := 0; j < ps.NumFields(); j++ {
+							pk := g.sortOf(ps.Field(j).Type()).K
+							if pk == KInt || pk == KBool || pk == KBV || pk == KStr {
+								a := env.eval(ESel{ESel{cs.Dst, name}, ps.Field(j).Name()})
+								b := env.eval(EOld{ESel{ESel{cs.Src, name}, ps.Field(j).Name()}})
+								goal = sAnd(goal, sImp(sNot(sEq(was.T, "pnull")), sEq(a.T, b.T)))
+							}
+						}
+						desc += ", pointee scalars carried"
+					}
+				}
+			} else {
+				goal = sEq(now.T, was.T)
+				desc = "shared reference carried"
+			}
+		case KSlice:
+			goal = sEq(fmt.Sprintf("(sl.len %s)", now.T), fmt.Sprintf("(sl.len %s)", was.T))
+			desc = "length carried"
+			if !shared {
+				goal = sAnd(goal, sImp(sNot(sEq(fmt.Sprintf("(sl.len %s)", now.T), g.idxLit(0))), sNot(sEq(fmt.Sprintf("(sl.arr %s)", now.T), fmt.Sprintf("(sl.arr %s)", was.T)))))
+				desc += ", no aliasing"
+			}
+		case KRef:
+			goal = sEq(sEq(now.T, "0"), sEq(was.T, "0"))
+			desc = "nil-ness carried"
+			if !shared {
+				goal = sAnd(goal, sImp(sNot(sEq(now.T, "0")), sNot(sEq(now.T, was.T))))
+				desc += ", no aliasing"
+			}
+		default:
+			continue
+		}
+		g.oblige("carry."+name, "D", fmt.Sprintf("field %s of %s: %s", name, types.TypeString(t, nil), desc), st.reach, goal, false)
+	}
+	for name := range cs.Except {
+		if !used[name] && name != "" {
+			g.errorf("carries: excepted field %s does not exist in %s (contract drift)", name, types.TypeString(t, nil))
+		}
 	}
 }
 
